@@ -96,6 +96,11 @@ type world struct {
 	// focus scenarios: the long-leased sibling zone and its aliases
 	sib     *zm.Zone
 	aliases []aliasInfo
+
+	// restart scenarios (restart.go): what the sloppy servers did, and how many
+	// bare referrals left the servers above the bare child
+	restart  *restartState
+	bareSent int
 }
 
 // aliasInfo is one CNAME of the sibling zone into the victim's zones.
@@ -225,6 +230,9 @@ func buildWorld(sc *Scenario) *world {
 			a.Delay = validationDelay
 			s.On(w.apex[sc.Victim-1], dns.TypeDNSKEY, a)
 		}
+	}
+	if sc.Restart != nil {
+		w.installRestart(srv)
 	}
 	// the generation the parent re-points to (prepared now, announced later)
 	if sc.Mode == "repoint" {
